@@ -132,7 +132,7 @@ def cases(tier, seed, prop):
     rnd = random.Random(seed)
     out = []
     if prop == 'C05':
-        n = 4000 if tier == 'quick' else 40000
+        n = 10000 if tier == 'quick' else 40000
         for _ in range(n):
             parts = []; spec = []
             for _ in range(rnd.choice([1, 1, 1, 2, 3])):
@@ -201,7 +201,7 @@ def expand_cases_C06(tier, seed):
                 for f in (forms if tier != 'quick' else [rnd.choice(forms)]):
                     out.append({'s': '%s:%s' % (k, f), 'c': {}, 'g': 'keyword', 'key': k, 'kw': w})
     # user snippets: override and new key
-    for _ in range(60 if tier == 'quick' else 600):
+    for _ in range(250 if tier == 'quick' else 800):
         k = rnd.choice([x for x in keys if x != 'lg']) if rnd.random() < .5 else rnd.choice(['zzq', 'myprop', 'xx', 'qq', 'foo', 'myPad', 'Zx', 'qW'])     # `lg` is the hard-wired gradient shortcut, resolved before any snippet lookup
         body = rnd.choice(['my-prop:${1:v}', 'other:a|b', 'raw ${1} text', 'foo-bar', 'grid-x:auto|none'])
         out.append({'s': k, 'c': {'snippets': {k: body}}, 'g': 'user', 'key': k, 'body': body})
